@@ -21,7 +21,7 @@ cases += [("m_replay_print_callers", [f64(3.7)]), ("m_replay_print_callers", [f6
           ("m_replay_number_print", [u8(4), f64(1664582400.0)]), ("m_replay_number_print", [u8(2), f64(255.0)]), ("m_replay_number_print", [u8(4), f64(-5.0)]),
           ("m_replay_at_date", [u8(0), f64(0.0), i32(120), i32(-300)]), ("m_replay_at_date", [u8(1), f64(15.0), i32(120), i32(-300)]), ("m_replay_at_date", [u8(1), f64(25.0), i32(0), i32(0)]),
           ("m_replay_datetime_print", [u32(84600), i32(60)]), ("m_replay_datetime_print", [u32(1800), i32(-300)]), ("m_replay_datetime_print", [u32(0), i32(840)]),
-          ("k_replay_session_reuse", []), ("k_replay_setters", [u8(0)]), ("k_replay_set_language", []), ("k_replay_api_rule_places", []),
+          ("k_replay_session_reuse", []), ("m_replay_month_twice", []), ("k_replay_setters", [u8(0)]), ("k_replay_set_language", []), ("k_replay_api_rule_places", []),
           ("m_replay_unit_amount", [f64(3e19)]), ("m_replay_unit_amount", [f64(-9223372036854775809.0)]), ("m_replay_unit_amount", [f64(0.3)]),
           ("m_replay_token_location", [u8(2), u16(2), u16(5), u16(7), u16(9), u16(0), u16(2)]), ("m_replay_token_location", [u8(1), u16(2), u16(5), u16(1), u16(3)]),
           ("m_replay_token_location", [u8(0), u16(1), u16(3)]),
